@@ -81,6 +81,16 @@ impl StatementBatch {
                 let millis = utils::time::time_millis() - task.start_time();
                 let on = TimeoutLimit::parse(&t.on)?;
                 if millis >= on.as_secs() * 1000 {
+                    #[cfg(acts_verif)]
+                    crate::verif::log(format!(
+                        "F {} {} {} {} {} {}",
+                        task.pid,
+                        task.id,
+                        t.on,
+                        utils::time::time_millis(),
+                        task.start_time(),
+                        on.as_secs() * 1000
+                    ));
                     task.set_data_with(|data| data.set(&key, true));
                     for node in &task
                         .node()
